@@ -2646,7 +2646,10 @@ impl<T: Storage> Raft<T> {
 
         // Now go ahead and actually restore.
 
-        if self.pending_request_snapshot == INVALID_INDEX
+        // A snapshot below the requested index cannot be the answer to this node's
+        // request (a delayed or duplicated older one): treat it as unrequested.
+        if (self.pending_request_snapshot == INVALID_INDEX
+            || meta.index < self.pending_request_snapshot)
             && self.raft_log.match_term(meta.index, meta.term)
         {
             info!(
